@@ -26,7 +26,10 @@ def _build(ac, L, p):
             for _c in iso.list_children(iso_path='/'):
                 pass
     SK(iso, L, CFG, hook)
-    iso.force_consistency()
+    # what the writer sees: _write_fp recomputes ONLY if the stale flag is set (its first statement).  Calling
+    # force_consistency() here instead would recompute unconditionally and hide a flag that was wrongly left clear.
+    if iso._needs_reshuffle:
+        iso._reshuffle_extents()
     return iso
 
 
@@ -92,6 +95,8 @@ _STEPS = {'sk1': 5, 'sk2': 9, 'sk3': 6, 'sk4': 15}
 def _nsteps(sk, c):
     if sk == 'sk2':
         return 6 + 2 * bool(c['joliet']) + 2 * bool(c['udf'])
+    if sk == 'sk7':
+        return 4 + 2 * bool(c['joliet']) + 2 * bool(c['udf'])
     if sk == 'sk4':
         return 3 + (1 if c['rr'] else 0) + (8 if (c['rr'] or c['il'] == 4) else 7) + 2
     return _STEPS[sk]
@@ -101,7 +106,7 @@ def obligations(tier):
     obs = []
     quick = tier == 'quick'
     cfgs = skel.quick_cfgs() if quick else skel.pairwise_cfgs()
-    for sk in ('sk1', 'sk2', 'sk3', 'sk4'):
+    for sk in ('sk1', 'sk2', 'sk3', 'sk4', 'sk7'):
         for c in cfgs:
             nm = skel.cfg_name(c)
             if sk == 'sk4' and not c['rr']:
@@ -112,6 +117,8 @@ def obligations(tier):
                 if sk == 'sk2' and not (c['joliet'] and c['udf'] and c['rr']):
                     continue
                 if sk == 'sk3' and not c['udf']:
+                    continue
+                if sk == 'sk7' and not ((c['joliet'] and c['udf'] and c['rr']) or not (c['joliet'] or c['udf'] or c['rr'])):
                     continue
                 if sk == 'sk4':
                     if c['joliet'] or c['udf']:
